@@ -84,7 +84,8 @@ def formsOfRoute (E : Engine) (r : Route) (hid : Nat) : List Form :=
       let long : Form := ⟨ips ++ [lp], hid, true⟩
       if last.optional then
         match revInit with
-        | [] => [long, ⟨[.static []], hid, false⟩]                 -- "/?x": the short form is "/"
+        | [] => if last.elems.isEmpty then [long]                  -- "/?": both forms are "/"
+                else [long, ⟨[.static []], hid, false⟩]            -- "/?x": the short form is "/"
         | prev :: revInit2 =>
           match pat? (classifyLeaf E) prev with
           | some sp => [long, ⟨(revInit2.reverse.filterMap (pat? (classifyTree E))) ++ [sp], hid, false⟩]
